@@ -221,6 +221,60 @@ def run(ck: Check) -> int:
                 sr.samples.append({'pair': [lo, up]})
         sr.distinct = len(pairs)
     ck.search('non-ascii-case', s_unicode_case)
+
+    def s_hist(sr):
+        # the documented language, asked in a HISTORY: a pattern STRING and the LIST of its characters (or of its pieces) are different
+        # questions, in either order and through every one-shot entry point (added after seeded change C01i: fnmatch() / filter() kept their
+        # matchers in a cache keyed by tuple(patterns), and tuple('ab') == tuple(['a', 'b']))
+        words = ['ab', '??', 'x*', 'a?', '*b', 'ba', '[ab]', 'a*b']
+        names = ['a', 'b', 'ab', 'ba', 'x', 'xa', 'xyz', '?', '*', 'aab', '[', ']', 'ac']
+        sr.note = (f'{len(words)} words x both orders x fnmatch / filter, flags {{0, DOTMATCH}}: the call with the string and the call with the list of its '
+                   'characters, one after the other in one process, each judged by its own documented meaning (string: the spec matcher through '
+                   'fnmatch.compile on a fresh pattern object is NOT used — literal/`?`/`*`/bracket meanings are written out here)')
+        import re as _re
+
+        def lang(p, n):          # documented meaning of these tiny patterns, written out (no dots in the names)
+            rx = ''
+            i = 0
+            while i < len(p):
+                c = p[i]
+                if c == '?':
+                    rx += '.'
+                elif c == '*':
+                    rx += '.*'
+                elif c == '[' and ']' in p[i + 1:]:
+                    j = p.index(']', i + 1)
+                    rx += '[' + _re.escape(p[i + 1:j]) + ']'
+                    i = j
+                else:
+                    rx += _re.escape(c)
+                i += 1
+            return _re.fullmatch(rx, n, _re.S) is not None
+        for w_ in words:
+            for fl in (F.FORCEUNIX, F.FORCEUNIX | F.DOTMATCH):
+                for order in (0, 1):
+                    seq = [('str', w_), ('list', list(w_))]
+                    if order:
+                        seq.reverse()
+                    for kind, pat in seq:
+                        for api in ('fnmatch', 'filter'):
+                            sr.evaluations += 1
+                            if api == 'fnmatch':
+                                got = [bool(F.fnmatch(n, pat, flags=fl)) for n in names]
+                            else:
+                                keep = set(F.filter(names, pat, flags=fl))
+                                got = [n in keep for n in names]
+                            want = [lang(pat, n) if kind == 'str' else any(lang(q, n) for q in pat) for n in names]
+                            if got != want:
+                                bad = [n for n, a, b in zip(names, want, got) if a != b]
+                                ck.report(Failing(f'{api}: pattern {pat!r} asked {"after" if (seq.index((kind, pat)) == 1) else "before"} {seq[1 - seq.index((kind, pat))][1]!r} in one process: '
+                                                  f'wrong on {bad[:4]}', {'api': 'fnmatch.' + api, 'pattern': pat, 'flags': fl, 'history': [x[1] for x in seq], 'names': names},
+                                                  want, got), None)
+                                sr.histogram['FAIL'] = sr.histogram.get('FAIL', 0) + 1
+                            else:
+                                sr.histogram['holds'] = sr.histogram.get('holds', 0) + 1
+        sr.distinct = len(words) * 4
+    ck.search('string-vs-list-histories', s_hist)
     if drv:
         drv.close()
     return ck.finish()
